@@ -1449,6 +1449,14 @@ where
         )));
     }
 
+    // A blowup factor of 1 leaves FRI without redundancy and is not a valid parameter; it would
+    // also put single-row input matrices at log height 0, for which no evaluation point exists.
+    if log_blowup == 0 {
+        return Err(VerificationError::InvalidProofShape(
+            "FRI log_blowup must be at least 1".to_string(),
+        ));
+    }
+
     // A zero-query proof is unsound and would also panic below on
     // `index_bits_per_query[0]`. Reject it explicitly before any indexing.
     if num_queries == 0 {
